@@ -389,7 +389,7 @@ func (s *Lexer) getNextToken() (*Token, error) {
 		} else if current_state == SBLOCKCOMMENTSTARTEND && ch == '-' {
 			buf.WriteRune(ch)
 			current_state = SBLOCKCOMMENTENDEND
-		} else if current_state == SBLOCKCOMMENTSTARTEND && ch == ')' {
+		} else if (current_state == SBLOCKCOMMENTSTARTEND || current_state == SBLOCKCOMMENTENDEND) && ch == ')' {
 			buf.WriteRune(ch)
 			current_state = SBLOCKCOMMENTSTARTEND
 		} else if current_state == SBLOCKCOMMENTENDEND && ch == '-' {
